@@ -22,6 +22,7 @@ fn main() {
     // of the worker) and a generous logical instruction budget per dsp call.
     util::hooks_default();
     let mut out = Out::new(args.out.as_deref());
+    util::set_phase_file(args.out.as_deref());
     match args.prop.as_str() {
         "probe" => props::probe::main(&args),
         p => {
